@@ -77,14 +77,18 @@ def checkEntries (ctx : TCtx) (rec : Rec) (child : Node) (cnames : Visit) (depth
           let (rc, nd) := ctx.cb cnames (depth + 1) child
           let vs := if rc then st.visits ++ [cnames] else st.visits
           if nd < childDepth - 1 then { st with visits := vs, abort := some nd }
-          else { st with visits := vs, matched := true, done := st.recursed }
+          -- a callback that asks to continue above the child's level also rules out the descent below the child
+          else { st with visits := vs, matched := true, recursed := st.recursed || decide (nd < childDepth),
+                         done := st.recursed || decide (nd < childDepth) }
         else st
       else
         -- a non-terminal clause matched: descend, at most once per child
         if st.recursed then st else
         let (vs, nd) := rec child cnames (depth + 1)
         if nd < childDepth - 1 then { st with visits := st.visits ++ vs, abort := some nd }
-        else { st with visits := st.visits ++ vs, recursed := true, done := st.matched }
+        -- a callback below the child that asks to continue above the child's level also rules out the child's own callback
+        else { st with visits := st.visits ++ vs, recursed := true, matched := st.matched || decide (nd < childDepth),
+                       done := st.matched || decide (nd < childDepth) }
     checkEntries ctx rec child cnames depth known es (idx + 1) st'
 
 /-- `CheckChildForTraversal(data, child, optKnownMatchingEntryIdx, depth)`: (visits, abort-to-depth) -/
